@@ -542,6 +542,9 @@ func (s *Scheme) Sign(c context.Context, msgHash []byte, topic string) ([]byte, 
 		return nil, err
 	}
 
+	// Whatever the outcome, the topic is released once we return
+	defer cleanup()
+
 	go func() {
 		if err := sync.Synchronize(ctx, initializeSigningInstance, topicHash, s.Threshold+1, SyncInterval); err != nil {
 			// suppress error in case we signed successfully
